@@ -311,32 +311,35 @@ func dpkgCompare(a, b string) (int, error) {
 
 var haveDpkg = func() bool { _, err := exec.LookPath("dpkg"); return err == nil }()
 
-// dpkgToolCompare asks the real dpkg.
-func dpkgToolCompare(a, b string) (int, bool) {
+// dpkgToolCompare asks the real dpkg. refused is dpkg's own complaint when it cannot parse one of the versions
+// (exit status 2): such a string has no place in dpkg's order, which is a finding, not a missing second opinion.
+func dpkgToolCompare(a, b string) (cmp int, ok bool, refused string) {
 	if !haveDpkg {
-		return 0, false
+		return 0, false, ""
 	}
 	run := func(op string) (bool, bool) {
-		err := exec.Command("dpkg", "--compare-versions", a, op, b).Run()
+		out, err := exec.Command("dpkg", "--compare-versions", a, op, b).CombinedOutput()
 		if err == nil {
 			return true, true
 		}
-		if ee, ok := err.(*exec.ExitError); ok && ee.ExitCode() == 1 {
+		if ee, isExit := err.(*exec.ExitError); isExit && ee.ExitCode() == 1 {
 			return false, true
+		} else if isExit && ee.ExitCode() == 2 && refused == "" {
+			refused = strings.TrimSpace(string(out))
 		}
 		return false, false
 	}
 	if lt, ok := run("lt"); ok && lt {
-		return -1, true
+		return -1, true, ""
 	} else if !ok {
-		return 0, false
+		return 0, false, refused
 	}
 	if eq, ok := run("eq"); ok && eq {
-		return 0, true
+		return 0, true, ""
 	} else if !ok {
-		return 0, false
+		return 0, false, refused
 	}
-	return 1, true
+	return 1, true, ""
 }
 
 // rpmvercmp is a port of rpm's rpmio/rpmvercmp.c (with '~' and '^').
@@ -513,7 +516,12 @@ func checkOrder(oc *OrderCase, useTool bool) []Violation {
 			continue
 		}
 		if useTool {
-			if tc, ok := dpkgToolCompare(p.a, p.b); ok {
+			tc, ok, refused := dpkgToolCompare(p.a, p.b)
+			if refused != "" {
+				vs.add("C14.order.unparsable", p.f, "dpkg itself refuses to compare %q with %q: %s", p.a, p.b, refused)
+				continue
+			}
+			if ok {
 				if sign(tc) != sign(c) {
 					panic(fmt.Sprintf("harness port of verrevcmp disagrees with dpkg on %q vs %q: port %d, dpkg %d", p.a, p.b, c, tc))
 				}
